@@ -15,13 +15,14 @@ from .c01 import shape_sig
 
 PROP = 'C03'
 LEVEL = 'exploration'
-N = {'quick': 40000, 'thorough': 1000000}
+N = {'quick': 24000, 'thorough': 1000000}
 RULE = ('seeded worlds (stub-made; all 17 types, contiguous/interleaved, typeless and empty channels, DAQmx and '
         'scaled channels when the world generator emits them); per world 3-4 handles drawn from {read, open} x '
         '{SimFile stream, SimFS path, BytesIO, real path} x {memmap_dir None, real dir} x {raw_timestamps F, T}; on '
         'each handle every documented access path per channel. distinct = (segment shapes, handle '
         'configurations); non-trivial = a channel with >= 1 value was obtained through >= 2 different paths')
-EXPECTED_PROBES = ['memmap-handle', 'raw-vs-converted-timestamps', 'file-level-chunks', 'typeless-channel', 'eager+lazy']
+EXPECTED_PROBES = ['memmap-handle', 'raw-vs-converted-timestamps', 'file-level-chunks', 'typeless-channel', 'eager+lazy',
+                   'scaled-channel']
 MODES = ['read', 'open']
 BACKENDS = ['simstream', 'simpath', 'bytesio', 'realpath']
 
@@ -32,11 +33,22 @@ def opts(tier):
     o.max_channels = 4
     o.props = False
     o.many_segments_p = 0.01
+
+    def scaling(rng, spec, ctype):
+        if rng.random() < 0.35:
+            from .c14 import add_sensor
+            from .c13 import add_scaling
+            add_sensor(rng, spec, ctype, 0.5, only_float=True)     # sensor scales are defined on floating point data
+            add_scaling(rng, spec, ctype, p=0.4)
+    o.scaling = scaling
     return o
 
 
 def generate(rng, tier):
-    spec, w, _ = gen.gen_world(rng, opts(tier))
+    from .c11 import maybe_daqmx_world
+    spec = maybe_daqmx_world(rng, 0.08)
+    if spec is None:
+        spec, w, _ = gen.gen_world(rng, opts(tier))
     handles = []
     for _ in range(rng.randint(3, 4)):
         handles.append({'mode': rng.choice(MODES), 'backend': rng.choice(BACKENDS),
@@ -48,7 +60,10 @@ def generate(rng, tier):
     return {'spec': spec, 'handles': handles, 'short_seed': rng.getrandbits(32) if rng.random() < 0.2 else None}
 
 
-def access_paths(tf, w, path, mode, n, file_chunks):
+UNSCALED_PATHS = ('read_data(scaled=False)', 'raw_data')
+
+
+def access_paths(tf, w, path, mode, n, file_chunks, keeper=None):
     """name -> (normalised result | ('exc', class, message))"""
     c = ops.chan(tf, w, path)
     out = {}
@@ -59,16 +74,24 @@ def access_paths(tf, w, path, mode, n, file_chunks):
         except Exception as exc:
             out[name] = ('exc', type(exc).__name__, str(exc)[:120])
 
-    rec('[:]', lambda: ops.norm(c[:]))
-    rec('[...]', lambda: ops.norm(c[...]))
-    rec('read_data()', lambda: ops.norm(c.read_data()))
+    def kept(name, fn):
+        obj = fn()
+        nm = ops.norm(obj)
+        if keeper is not None:
+            keeper.keep('%s %s %s' % (mode, path, name), obj, nm)
+        return nm
+
+    rec('[:]', lambda: kept('[:]', lambda: c[:]))
+    rec('[...]', lambda: kept('[...]', lambda: c[...]))
+    rec('read_data()', lambda: kept('read_data()', lambda: c.read_data()))
     rec('iter', lambda: ops.norm_iter_list(list(iter(c))))
     if n <= 40:
         rec('[i]', lambda: ops.norm_iter_list([c[i] for i in range(n)]))
-    rec('read_data(scaled=False)', lambda: ops.norm(c.read_data(scaled=False)))
+    rec('read_data(scaled=False)', lambda: kept('read_data(scaled=False)', lambda: c.read_data(scaled=False)))
     if mode == 'read':
-        rec('.data', lambda: ops.norm(c.data))
-        rec('raw_data', lambda: ops.norm(c.raw_data))
+        rec('.data', lambda: kept('.data', lambda: c.data))
+        if w.chans[path].type != 'daqmx' or len(w.chans[path].scalers) == 1:
+            rec('raw_data', lambda: kept('raw_data', lambda: c.raw_data))
     else:
         def chunks():
             parts = []
@@ -77,6 +100,8 @@ def access_paths(tf, w, path, mode, n, file_chunks):
                 if ck.offset != count:
                     raise AssertionError('chunk offset %d, %d values delivered before' % (ck.offset, count))
                 d = ck[:]
+                if keeper is not None:
+                    keeper.keep('%s %s data_chunks()[..][:]' % (mode, path), d)
                 if len(ck) != len(d):
                     raise AssertionError('len(chunk) %d != len(chunk[:]) %d' % (len(ck), len(d)))
                 count += len(d)
@@ -126,7 +151,8 @@ def execute(case):
     res = Result()
     spec = case['spec']
     w = build(spec)
-    res.sig = [shape_sig(spec), [(h['mode'], h['backend'], h['memmap'], h['raw_ts']) for h in case['handles']]]
+    from .c04 import _sig
+    res.sig = [_sig(spec), [(h['mode'], h['backend'], h['memmap'], h['raw_ts']) for h in case['handles']]]
     modes = set(h['mode'] for h in case['handles'])
     if len(modes) == 2:
         res.probe('eager+lazy')
@@ -134,6 +160,11 @@ def execute(case):
         st.put('w.tdms', w.data)
         per_chan = {p: [] for p in w.chans}       # (handle index, raw_ts, name, result)
         opened = []
+        keeper = ops.Keeper(limit=600)
+        from .. import scalemodel
+        is_scaled = {p: scalemodel.channel_scales(w, p) is not None for p in w.chans}
+        if any(is_scaled.values()):
+            res.probe('scaled-channel')
         for hi, h in enumerate(case['handles']):
             kw = {'raw_timestamps': h['raw_ts']}
             if h['memmap']:
@@ -163,7 +194,7 @@ def execute(case):
                 except Exception as exc:
                     res.violations.append(V('C03.raises', 'len(%s): %s' % (path, exc)))
                     continue
-                for name, r in access_paths(tf, w, path, h['mode'], n, file_chunks).items():
+                for name, r in access_paths(tf, w, path, h['mode'], n, file_chunks, keeper).items():
                     per_chan[path].append((hi, h, name, r))
                     res.steps += 1
         for path, ch in w.chans.items():
@@ -180,16 +211,32 @@ def execute(case):
                         typeless=ch.type is None))
                     continue
                 res.compared += 1
-                if ch.type not in ('daqmx',):
+                unscaled_path = name in UNSCALED_PATHS
+                if ch.type == 'daqmx':
+                    if unscaled_path:
+                        exp = _lazy.model_full(ch, True)
+                        if name == 'raw_data':
+                            exp = exp[1][0][1]
+                        if r != exp and ch.count:
+                            res.violations.append(V('C03.differs-from-model', '%s on %s (DAQmx): got %s expected %s' % (
+                                label, path, _lazy._short(r), _lazy._short(exp)), path=name, mode=h['mode']))
+                            continue
+                elif unscaled_path or not is_scaled[path]:
                     exp = _lazy.model_full(ch, h['raw_ts'])
                     if not ops.agree(r, exp) and not (is_empty(r) and _lazy.full_len(exp) == 0):
                         res.violations.append(V('C03.differs-from-model', '%s on %s (type %s): got %s expected %s' % (
                             label, path, ch.type, _lazy._short(r), _lazy._short(exp)), path=name, mode=h['mode']))
                         continue
                 ok_results.append((hi, h, name, r, label))
-            # all paths agree exactly within one timestamp representation
-            for raw in (False, True):
-                group = [x for x in ok_results if x[1]['raw_ts'] == raw]
+            # all paths agree exactly within one timestamp representation (scaled and unscaled paths of a
+            # scaled channel form two groups)
+            split = is_scaled[path] or ch.type == 'daqmx'
+            for raw, cls in ((False, False), (True, False), (False, True), (True, True)):
+                group = [x for x in ok_results if x[1]['raw_ts'] == raw and ((x[2] in UNSCALED_PATHS) == cls or not split)]
+                if not split and cls:
+                    continue
+                if ch.type == 'daqmx' and cls:
+                    group = [x for x in group if x[2] != 'raw_data']
                 if len(group) >= 2 and ch.count > 0:
                     res.nontrivial = True
                 if group:
@@ -213,6 +260,23 @@ def execute(case):
                         res.violations.append(V('C03.raw-vs-converted', '%s: raw[:].as_datetime64() != converted[:]' % path))
             if len(res.violations) > 4:
                 break
+        # purity: after every access path has run, the unscaled data still is the file's content
+        for hi, h in enumerate(case['handles']):
+            if hi >= len(opened):
+                break
+            for path, ch in w.chans.items():
+                if ch.type in (None, 'daqmx') or not ch.count:
+                    continue
+                c = ops.chan(opened[hi], w, path)
+                for name, fn in (('read_data(scaled=False)', lambda: c.read_data(scaled=False)),) + (
+                        (('raw_data', lambda: c.raw_data),) if h['mode'] == 'read' else ()):
+                    r, exc, eo = ops.try_op(lambda: ops.norm(fn()))
+                    if r is not None and not ops.agree(r, _lazy.model_full(ch, h['raw_ts'])):
+                        res.violations.append(V('C03.unscaled-changed', '%s/%s on %s after all access paths ran: %s, file holds %s' % (
+                            h['mode'], name, path, _lazy._short(r), _lazy._short(_lazy.model_full(ch, h['raw_ts']))), path=name))
+        for (label, before, after) in keeper.mutated()[:3]:
+            res.violations.append(V('C03.result-aliased', 'the array returned by %s changed after later reads: was %s, now %s' % (
+                label, _lazy._short(before), _lazy._short(after))))
         for tf in opened:
             try:
                 tf.close()
@@ -249,4 +313,5 @@ def shrink_candidates(case):
 
 
 def sample(case):
-    return {'segments': shape_sig(case['spec']), 'handles': case['handles']}
+    from .c04 import _sig
+    return {'segments': _sig(case['spec']), 'handles': case['handles']}
